@@ -3,6 +3,7 @@
 # Confirms a seeded change in a scratch clone: applies, builds, repository suite still passes (stable list),
 # demo fails with / passes without the change, then runs the given checks against the changed tree.
 set -u
+H=${VERIF_HOME:-/verif}   # which copy of the machinery runs the checks (a committed snapshot while /verif is being edited)
 D=$(realpath "$1"); shift
 W=$(mktemp -d /var/tmp/seed-XXXXXX); trap 'chmod -R u+w "$W" 2>/dev/null; rm -rf "$W"' EXIT
 export GOFLAGS=-mod=mod GOPROXY=off GOSUMDB=off GOTOOLCHAIN=local
@@ -17,8 +18,8 @@ name=$(grep -o 'func Test[A-Za-z0-9_]*' "$D/demo_test.go" | head -1 | sed 's/fun
 (cd "$W/clean" && go test -count=1 -run "^$name\$" $pkg >/dev/null 2>&1) && echo "SEED: demo passes on clean tree" || echo "SEED: demo FAILS on clean tree (bad seed)"
 (cd "$W/mut" && go test -count=1 -run "^$name\$" $pkg >/dev/null 2>&1) && echo "SEED: demo passes with change (bad seed)" || echo "SEED: demo fails with change"
 rm -f "$W/mut/$place"
-VERIF_REPO="$W/mut" /verif/tools/baseline_check.py | tail -3
+VERIF_REPO="$W/mut" "$H/tools/baseline_check.py" | tail -3
 for c in "$@"; do
   echo "--- check $c against the changed tree"
-  (cd /verif && VERIF_EVIDENCE_DIR="$W/evidence" VERIF_REPO="$W/mut" ./check "$c" 2>&1 | grep -E "^(VIOLATION|OK|KNOWN)" )
+  (cd "$H" && VERIF_EVIDENCE_DIR="$W/evidence" VERIF_REPO="$W/mut" ./check "$c" 2>&1 | grep -E "^(VIOLATION|OK|KNOWN)" )
 done
